@@ -11,6 +11,10 @@
     K4  the flattened filter (round compared across heights) drops the NewHeight timeout after a
         height that ended in a round > 0 — counter-theorem, the shape of a realistic regression.
   and (Props/C08): rejected input leaves the node unchanged, so hostile traffic cannot undo progress.
+  and (local progress, P1-P6): a node that has what a commit needs commits; +2/3 precommits for a
+  valid block are never ignored - entering Commit finalizes at once or waits for exactly that block
+  with an incomplete part set, and the arrival of the parts finalizes (P4, P5), in every reachable
+  state (P6: two run invariants through every handler).
   What is DECIDED PER RUN, not proved: termination of every height on the real nodes — the c12
   `live` engine runs adversarial prefixes (reordering, loss, duplication, Byzantine validators < 1/3
   that equivocate, crashes with WAL replay) followed by a fair suffix (everything delivered, every
@@ -20,7 +24,7 @@
   timeout and gossip routines, and blocking event-switch hooks.
 -/
 import AnnVerif.Model.Ticker
-import AnnVerif.Lemmas.NodeProgress
+import AnnVerif.Lemmas.NodeProgress2
 namespace AnnVerif.C12
 open AnnVerif.Ticker
 
@@ -132,5 +136,39 @@ theorem finalize_opens_next_height (n : Node.Node) (bid : VoteSet.BlockID)
     (hv : Node.isValid n bid.hash = true) :
     (Node.finalizeCommit n n.height).height = n.height + 1 ∧ (Node.finalizeCommit n n.height).step = .newHeight :=
   (Node.finalizeCommit_commits n bid hs hm hb hp hc hv).2
+
+/-- P4: +2/3 precommits for a valid block are NEVER IGNORED. In every state with the two run
+    invariants (`Good`, `Cpl` - they hold in every state a node reaches, P6), entering Commit on them
+    from any earlier step, any round, any lock, with or without the proposal, either finalizes at
+    once or leaves the node in the Commit step waiting for exactly that block with an incomplete
+    part set - the hypotheses of P2 -/
+theorem two_thirds_precommits_are_never_ignored (n : Node.Node) (cr : Int) (bid : VoteSet.BlockID)
+    (hg : Node.Good n) (hcp : Node.Cpl n)
+    (hs : ¬ Node.Step.commit ≤ n.step) (hm : Node.maj23 (Node.precommits n cr) = some bid) (hne : bid.hash.isEmpty = false)
+    (hv : Node.isValid n bid.hash = true) :
+    (Node.Emit.commit n.height bid.hash ∈ (Node.enterCommit n n.height cr).out ∧ (Node.enterCommit n n.height cr).height = n.height + 1) ∨
+    ((Node.enterCommit n n.height cr).height = n.height ∧ (Node.enterCommit n n.height cr).step = .commit ∧
+      Node.maj23 (Node.precommits (Node.enterCommit n n.height cr) (Node.enterCommit n n.height cr).commitRound) = some bid ∧
+      (Node.enterCommit n n.height cr).proposalParts = some bid.hash ∧ (Node.enterCommit n n.height cr).partsComplete = false ∧
+      Node.isValid (Node.enterCommit n n.height cr) bid.hash = true) :=
+  Node.enterCommit_never_ignores n cr bid hg hcp hs hm hne hv
+
+/-- P5: hence the height is committed at once or as soon as the block's parts are delivered, by
+    anybody - no timeout and no further vote is needed -/
+theorem commit_now_or_when_the_parts_arrive (n : Node.Node) (cr : Int) (bid : VoteSet.BlockID) (own : Bool)
+    (hg : Node.Good n) (hcp : Node.Cpl n)
+    (hs : ¬ Node.Step.commit ≤ n.step) (hm : Node.maj23 (Node.precommits n cr) = some bid) (hne : bid.hash.isEmpty = false)
+    (hv : Node.isValid n bid.hash = true) :
+    (Node.enterCommit n n.height cr).height = n.height + 1 ∨
+    (Node.addParts (Node.enterCommit n n.height cr) n.height bid.hash own).height = n.height + 1 :=
+  Node.commit_now_or_with_parts n cr bid own hg hcp hs hm hne hv
+
+/-- P6: the two invariants hold in EVERY state a (repaired) node reaches from its start, whatever
+    messages, own-queue entries, timeouts and +2/3 claims it is given, in any order -/
+theorem invariants_hold_in_every_reachable_state (height : Int) (vals : ValSet.ValSet) (me : Option Nat) (skip : Bool)
+    (ins : List Node.In) :
+    Node.Good (ins.foldl Node.stepIn (Node.init Node.repaired height vals me skip)) ∧
+    Node.Cpl (ins.foldl Node.stepIn (Node.init Node.repaired height vals me skip)) :=
+  Node.reachable_good_cpl height vals me skip ins
 
 end AnnVerif.C12
